@@ -340,7 +340,7 @@ class Run:
             return 1
         if acc.inconclusive:
             for r in acc.inconclusive[:10]:
-                print(f"INCONCLUSIVE property={self.prop} reason={r[:600]}")
+                print(f"INCONCLUSIVE property={self.prop} reason={r[:160]} ... {r[-500:] if len(r) > 160 else ''}")
             return 2
         return 0
 
